@@ -185,7 +185,7 @@ def strategy(tier: str):
 
 
 def FLAKY_IS_VIOLATION(case: Any) -> bool:
-    return isinstance(case, dict) and (case.get('kind') == 'threaded' or bool(case.get('sync')))
+    return isinstance(case, dict) and (case.get('kind') in ('threaded', 'apploop') or bool(case.get('sync')))
 
 
 def known_signature(case: Any, v: Violation):
@@ -417,7 +417,7 @@ ALLOWED_EXC = ('NotRunningException', 'NonUniqueNameException')
 def check(case: Dict[str, Any]) -> Dict[str, Any]:
     if case.get('kind') == 'early':
         return check_early(case)
-    if case.get('kind') == 'threaded':
+    if case.get('kind') in ('threaded', 'apploop'):
         from props.c17_threads import check_threaded
 
         return check_threaded(case)
